@@ -23,6 +23,13 @@ LEAVES = [
     # D18 repair: removing a listener that is not registered (set.remove -> KeyError) is caught
     ("Cache", "remove_listener_catches_keyerror", "_handlers/record_manager.py", "RecordManager.async_remove_listener", ("except_catches", "KeyError"),
      [], "bool", {}),
+    # D23 repair: async_add_listener purges expired records (notifying the registered listeners) BEFORE it adds the new listener
+    ("Cache", "add_listener_purges_first", "_handlers/record_manager.py", "RecordManager.async_add_listener", ("call_before", "cache.async_expire", "listeners.add"),
+     [], "bool", {}),
+    ("Cache", "add_listener_purge_expire_now", "_handlers/record_manager.py", "RecordManager.async_add_listener", ("arg", "cache.async_expire", 0, 0),
+     [P("now", "now")], "num", {}),
+    ("Cache", "add_listener_purge_updates_now", "_handlers/record_manager.py", "RecordManager.async_add_listener", ("arg", "self.async_updates", 0, 0),
+     [P("now", "now")], "num", {}),
     # ---- _engine.py: the periodic purge uses ONE reading of the clock: the instant it sweeps the cache with is the instant it
     # tells the listeners (a second `current_time_millis()` is not in the translator's subset: fails closed)
     ("Cache", "purge_expire_now", "_engine.py", "AsyncEngine._async_cache_cleanup", ("arg", "cache.async_expire", 0, 0),
